@@ -70,44 +70,60 @@ int rustsecp256k1zkp_v0_10_0_pedersen_commitment_serialize(const void *ctx, uc *
   return 1;
 }
 
-/* ---------------- public keys: stored as x (32) || parity (1) ------------------------- */
+/* ---------------- public keys: stored as x (32) || y (32) ------------------------------
+ * For every valid x there are exactly two points, told apart by the parity of y:
+ * y = Y(x, parity), an uninterpreted function whose lowest bit is forced to the parity. */
+uint64_t __CPROVER_uninterpreted_pk_y(uint64_t, uint64_t, uint64_t, uint64_t, uint64_t, uint64_t);
+static void curve_y(uc *y, const uc *x, int parity) {
+  uint64_t a0 = ld64(x), a1 = ld64(x + 8), a2 = ld64(x + 16), a3 = ld64(x + 24);
+  st64(y, __CPROVER_uninterpreted_pk_y(a0, a1, a2, a3, (uint64_t)parity, 0));
+  st64(y + 8, __CPROVER_uninterpreted_pk_y(a0, a1, a2, a3, (uint64_t)parity, 1));
+  st64(y + 16, __CPROVER_uninterpreted_pk_y(a0, a1, a2, a3, (uint64_t)parity, 2));
+  st64(y + 24, __CPROVER_uninterpreted_pk_y(a0, a1, a2, a3, (uint64_t)parity, 3));
+  y[31] = (uc)((y[31] & 0xFE) | (parity & 1));
+}
 int rustsecp256k1_v0_10_0_ec_pubkey_parse(const void *ctx, uc *pk64, const uc *in, size_t len) {
   if (len == 33) {
     uc b[33];
     memcpy(b, in, 33);
     if (b[0] != 2 && b[0] != 3) return 0;
     if (!__CPROVER_uninterpreted_pk_valid(ld64(b + 1), ld64(b + 9), ld64(b + 17), ld64(b + 25))) return 0;
-    memset(pk64, 0, 64); memcpy(pk64, b + 1, 32);
-    pk64[32] = b[0] & 1;
+    memcpy(pk64, b + 1, 32);
+    curve_y(pk64 + 32, b + 1, b[0] & 1);
     return 1;
   }
   if (len == 65) {
     uc b[65];
+    uc y[32];
     memcpy(b, in, 65);
     if (b[0] != 4 && b[0] != 6 && b[0] != 7) return 0;
     if (!__CPROVER_uninterpreted_pk_valid(ld64(b + 1), ld64(b + 9), ld64(b + 17), ld64(b + 25))) return 0;
-    /* y must be the curve's y for x: abstracted to "its parity is the one the curve dictates or its negation" */
     if (b[0] != 4 && ((b[0] & 1) != (b[64] & 1))) return 0;
-    memset(pk64, 0, 64); memcpy(pk64, b + 1, 32);
-    pk64[32] = b[64] & 1;
+    /* y must be the curve's y for x with that parity */
+    curve_y(y, b + 1, b[64] & 1);
+    if (cmp32(y, b + 33) != 0) return 0;
+    memcpy(pk64, b + 1, 64);
     return 1;
   }
   return 0;
 }
 int rustsecp256k1_v0_10_0_ec_pubkey_serialize(const void *ctx, uc *out, size_t *outlen, const uc *pk64, unsigned int flags) {
-  /* SECP256K1_EC_COMPRESSED = (1 << 1) | (1 << 8) */
+  /* SECP256K1_EC_COMPRESSED = (1 << 1) | (1 << 8), SECP256K1_EC_UNCOMPRESSED = (1 << 1) */
   if (flags & (1u << 8)) {
     __CPROVER_assert(*outlen >= 33, "ec_pubkey_serialize: output buffer holds 33 bytes");
-    out[0] = 2 | (pk64[32] & 1);
+    out[0] = 2 | (pk64[63] & 1);
     memcpy(out + 1, pk64, 32);
     *outlen = 33;
     return 1;
   }
-  __CPROVER_assert(0, "unsupported in secp model: uncompressed public key serialization");
-  return 0;
+  __CPROVER_assert(*outlen >= 65, "ec_pubkey_serialize: output buffer holds 65 bytes");
+  out[0] = 4;
+  memcpy(out + 1, pk64, 64);
+  *outlen = 65;
+  return 1;
 }
 int rustsecp256k1_v0_10_0_ec_pubkey_cmp(const void *ctx, const uc *a, const uc *b) {
-  if ((a[32] & 1) != (b[32] & 1)) return (a[32] & 1) < (b[32] & 1) ? -1 : 1;
+  if ((a[63] & 1) != (b[63] & 1)) return (a[63] & 1) < (b[63] & 1) ? -1 : 1;
   return cmp32(a, b);
 }
 
@@ -128,7 +144,7 @@ int rustsecp256k1_v0_10_0_xonly_pubkey_cmp(const void *ctx, const uc *a, const u
 }
 int rustsecp256k1_v0_10_0_xonly_pubkey_from_pubkey(const void *ctx, uc *xonly64, int *parity, const uc *pk64) {
   memset(xonly64, 0, 64); memcpy(xonly64, pk64, 32);
-  if (parity) *parity = pk64[32] & 1;
+  if (parity) *parity = pk64[63] & 1;
   return 1;
 }
 /* Q = P + t*G abstracted: (x', parity, ok) are uninterpreted functions of (P.x, t). */
@@ -147,8 +163,8 @@ int rustsecp256k1_v0_10_0_xonly_pubkey_tweak_add(const void *ctx, uc *outpk64, c
   int parity;
   uc x[32];
   if (!tweak_model(x, &parity, internal64, tweak32)) return 0;
-  memset(outpk64, 0, 64); memcpy(outpk64, x, 32);
-  outpk64[32] = (uc)parity;
+  memcpy(outpk64, x, 32);
+  curve_y(outpk64 + 32, x, parity);
   return 1;
 }
 int rustsecp256k1_v0_10_0_xonly_pubkey_tweak_add_check(const void *ctx, const uc *tweaked32, int tweaked_parity, const uc *internal64, const uc *tweak32) {
@@ -170,10 +186,10 @@ int rustsecp256k1_v0_10_0_ec_seckey_verify(const void *ctx, const uc *sk32) {
 }
 
 /* ---------------- proofs: opaque non-empty blobs, validity uninterpreted ------------- */
+#define BYTE_AT(p, n, k) ((uint64_t)(((k) < (n)) ? (p)[(k)] : 0))
 static uint64_t ldn(const uc *p, size_t n, size_t off) {
-  uint64_t r = 0;
-  for (size_t i = 0; i < 8; i++) r = (r << 8) | ((off + i < n) ? p[off + i] : 0);
-  return r;
+  return (BYTE_AT(p, n, off) << 56) | (BYTE_AT(p, n, off + 1) << 48) | (BYTE_AT(p, n, off + 2) << 40) | (BYTE_AT(p, n, off + 3) << 32) |
+         (BYTE_AT(p, n, off + 4) << 24) | (BYTE_AT(p, n, off + 5) << 16) | (BYTE_AT(p, n, off + 6) << 8) | BYTE_AT(p, n, off + 7);
 }
 int rustsecp256k1zkp_v0_10_0_rangeproof_info(const void *ctx, int *exp, int *mantissa, uint64_t *minv, uint64_t *maxv, const uc *proof, size_t plen) {
   if (plen == 0) return 0;
@@ -188,7 +204,8 @@ int rustsecp256k1zkp_v0_10_0_surjectionproof_parse(const void *ctx, struct sp *p
   if (len == 0 || len > 64) return 0;
   if (!__CPROVER_uninterpreted_sp_valid(ldn(in, len, 0), ldn(in, len, 8), (uint64_t)len)) return 0;
   proof->n_inputs = len;
-  for (size_t i = 0; i < 64; i++) proof->data[i] = (i < len) ? in[i] : 0;
+  memset(proof->data, 0, 64);
+  memcpy(proof->data, in, len);
   return 1;
 }
 size_t rustsecp256k1zkp_v0_10_0_surjectionproof_serialized_size(const void *ctx, const struct sp *proof) {
@@ -197,7 +214,13 @@ size_t rustsecp256k1zkp_v0_10_0_surjectionproof_serialized_size(const void *ctx,
 int rustsecp256k1zkp_v0_10_0_surjectionproof_serialize(const void *ctx, uc *out, size_t *outlen, const struct sp *proof) {
   size_t n = proof->n_inputs;
   if (*outlen < n) return 0;
-  for (size_t i = 0; i < 64; i++) if (i < n) out[i] = proof->data[i];
+  memcpy(out, proof->data, n);
   *outlen = n;
   return 1;
 }
+
+/* ---------------- contexts: opaque, stateless in the model --------------------------- */
+size_t rustsecp256k1_v0_10_0_context_preallocated_size(unsigned int flags) { return 64; }
+void *rustsecp256k1_v0_10_0_context_preallocated_create(void *prealloc, unsigned int flags) { return prealloc; }
+void rustsecp256k1_v0_10_0_context_preallocated_destroy(void *ctx) {}
+int rustsecp256k1_v0_10_0_context_randomize(void *ctx, const uc *seed32) { return 1; }
